@@ -70,8 +70,8 @@ class TypeV:
 
 class Obj:
     """an instance of a repository dataclass: mutable fields"""
-    def __init__(self, cls: str, fields: dict):
-        self.cls, self.fields = cls, fields
+    def __init__(self, cls: str, fields: dict, full: Optional[str] = None):
+        self.cls, self.fields, self.full = cls, fields, full
 
     def __repr__(self):
         return f"{self.cls}({', '.join(f'{k}={v!r}' for k, v in self.fields.items())})"
@@ -179,6 +179,7 @@ class Interp:
         """all (trace, return value, notes) over the choices for UNKNOWN conditions.  *prelude* = (fn0, env0): a method
         interpreted first on the same object (its stores to self.* are visible to *fn*)."""
         results = []
+        self.envs = []
         pending = [[]]
         while pending:
             if len(results) >= self.max_traces:
@@ -207,6 +208,7 @@ class Interp:
             except _Loop:
                 rv = None
             results.append((self.trace, rv, list(self.undecided)))
+            self.envs.append(env1)
             # branch points discovered beyond the prefix: schedule the alternatives
             for i in range(len(pre), len(self.choices)):
                 alt = self.choices[:i] + [not self.choices[i]]
@@ -527,6 +529,14 @@ class Interp:
             return sym_add(l, r, 1 if isinstance(e.op, ast.Add) else -1)
         if isinstance(e, (ast.ListComp, ast.GeneratorExp)):
             return self.comp(e, env, depth)
+        if isinstance(e, ast.Subscript) and isinstance(e.slice, ast.Slice):
+            base = self.ev(e.value, env, depth)
+            lo = self.ev(e.slice.lower, env, depth) if e.slice.lower is not None else None
+            hi = self.ev(e.slice.upper, env, depth) if e.slice.upper is not None else None
+            st_ = self.ev(e.slice.step, env, depth) if e.slice.step is not None else None
+            if isinstance(base, list) and all(x is None or (isinstance(x, int) and not isinstance(x, bool)) for x in (lo, hi, st_)):
+                return base[lo:hi:st_]
+            return UNKNOWN
         if isinstance(e, ast.Subscript):
             base = self.ev(e.value, env, depth)
             idx = self.ev(e.slice, env, depth) if not isinstance(e.slice, ast.Slice) else UNKNOWN
@@ -667,7 +677,7 @@ class Interp:
                         fields[n_] = v
                     for k, v in kwargs.items():
                         fields[k] = v
-                    o = Obj(ci.name, fields)
+                    o = Obj(ci.name, fields, ci.fullname)
                     if ci.name in self.record_calls:
                         pass
                     return o
@@ -680,7 +690,7 @@ class Interp:
             recv_v = self.ev(c.func.value, env, depth) if not (isinstance(c.func.value, ast.Name) and c.func.value.id == "self"
                                                                and not isinstance(env.get("self"), Obj)) else None
             if isinstance(recv_v, Obj):
-                cands = [ci for ci in self.prog.classes.values() if ci.name == recv_v.cls]
+                cands = [ci for ci in self.prog.classes.values() if (ci.fullname == recv_v.full if recv_v.full else ci.name == recv_v.cls)]
                 target = self.prog.lookup_method(cands[0], nm) if len(cands) == 1 else None
                 if target is not None and isinstance(target.node, (ast.FunctionDef, ast.AsyncFunctionDef)) and target not in self.fn_stack[-3:]:
                     a = target.node.args
@@ -860,7 +870,7 @@ def _copy_val(v: Any) -> Any:
     if isinstance(v, dict):
         return {k: _copy_val(x) for k, x in v.items()}
     if isinstance(v, Obj):
-        return Obj(v.cls, {k: _copy_val(x) for k, x in v.fields.items()})
+        return Obj(v.cls, {k: _copy_val(x) for k, x in v.fields.items()}, v.full)
     return v
 
 
